@@ -15,6 +15,17 @@ spec/C04/Sb2OperandsMC.tla  MC + GEN of the operand case space: every command ki
                           (one operand at a time, diagonal; thorough: pairs), header words (build number, section id); lemmas OneClass /
                           RepAgree / Encodable / WidthSensitive / FieldSensitive; every emitted case is built in EVERY run (operand lane)
 
+spec/C04/Sb2Hist.tla      the HISTORY of one live builder object: queries (str / update), mutators (add a section, append / replace a command,
+                          set a section id) and exports in any order; MC: every export of every history describes the content at that moment
+                          (with a refutation run of the accumulating variant); GEN: all histories up to MaxLen calls.  HISTORY LANE: every
+                          history is replayed on a real BootImageV20 / V21 object, EVERY export is walked by the executor, and the whole history
+                          is one trace of Sb2RomTrace (kind "hist": the content is state of the spec, every export is bound to it)
+spec/C04/Sb2Config.tla    the CONFIGURATION PATH (BootImageV21.load_from_config / SB21Helper, what `nxpimage sb21 export` runs on a BD / YAML
+                          file): statement kind x memory-option class (absent, internal, name, number of a named memory, number without a name
+                          incl. group bits; integers and strings) x data source (file, blob, words, pattern), Expected(statement) = abstract
+                          command; lemmas Encodable / MemVisible / SameMemory / BlobNeutral; CONFIGURATION LANE: every case is built through
+                          load_from_config in every run and decided by the ROM automaton + Matches like a file of the class path
+
 Python only drives SPSDK's public classes, runs the executor, projects parse() results and hands traces to TLC.
 """
 import hashlib
@@ -270,6 +281,254 @@ def lane_shapes(cases, r):
     return out
 
 
+
+# ------------------------------------------------------------------ history lane (Sb2Hist): one live object, many calls
+HIST_VERS = {"21": ("21", False), "21sha": ("21", True), "20s": ("20s", False), "20u": ("20u", False)}
+
+
+def hist_select(hists, quick):
+    """Every call sequence shorter than the longest enumerated length for every version (initial content in rotation; thorough: every initial
+    content as well); of the longest length one (version, initial content) combination per call sequence, in rotation (deterministic)."""
+    seqs = {}
+    for h in hists:
+        seqs.setdefault(tuple(a["a"] for a in h["acts"]), []).append(h)
+    top = max(len(q) for q in seqs)
+    out = []
+    for i, (seq, hs) in enumerate(sorted(seqs.items())):
+        hs.sort(key=lambda h: (h["ver"], h["init"]))
+        if len(seq) == top:
+            out.append(hs[i % len(hs)])
+        elif not quick:
+            out += hs
+        else:
+            vers = sorted({h["ver"] for h in hs})
+            for k, ver in enumerate(vers):
+                mine = [h for h in hs if h["ver"] == ver]
+                out.append(mine[(i + k) % len(mine)])
+    return out
+
+
+def shape_cmd(blocks, r, plain_tour, residue_tour, ks_ids):
+    """One command of a shape (payload blocks; 0 = a command without payload) with seeded values -> (abstract command, constructor description)."""
+    if blocks == 0:
+        v = plain_tour[0]
+        plain_tour.append(plain_tour.pop(0))
+        return mk_plain(v, r, ks_ids)
+    res = residue_tour[0]
+    residue_tour.append(residue_tour.pop(0))
+    data = bytes(r.getrandbits(8) for _ in range((blocks - 1) * 16 + (res if res else 16)))
+    a, m = w32(r), r.choice(MEMS)
+    return acmd("load", a=a, m=m, d=data), ("CmdLoad", a, data.hex(), m, r.random() < 0.5)
+
+
+def concretise_hist(h, idx, r, plain_tour, residue_tour, ks_ids):
+    """History emitted by TLC (Sb2Hist) -> builder input for the constructor + the calls with seeded values."""
+    ver, sha = HIST_VERS[h["ver"]]
+    signed = list(CHAIN_TAB)
+    shape = {"ver": ver, "sha": sha, "chain": "none" if ver == "20u" else signed[idx % len(signed)],
+             "secs": [{"hm": s["hm"], "cmds": s["cmds"]} for s in h["content0"]]}
+    g = concretise(shape, idx, r, plain_tour, residue_tour, ks_ids, [0])
+    uids = {s["uid"] for s in g["secs"]}
+
+    def fresh():
+        u = w32(r)
+        while u in uids:
+            u = r.getrandbits(32)
+        uids.add(u)
+        return u
+
+    calls = []
+    for a in h["acts"]:
+        k = a["a"]
+        if k == "AddSection":
+            calls.append({"a": k, "sec": {"uid": fresh(), "hmacReq": a["sec"]["hm"], "zero": r.random() < 0.5,
+                                          "cmds": [shape_cmd(b, r, plain_tour, residue_tour, ks_ids) for b in a["sec"]["cmds"]]}})
+        elif k in ("AppendCmd", "ReplaceCmd"):
+            calls.append({"a": k, "cmd": shape_cmd(a["p"], r, plain_tour, residue_tour, ks_ids)})
+        elif k == "SetUid":
+            calls.append({"a": k, "uid": fresh()})
+        else:
+            calls.append({"a": k})
+    g["hist"] = calls
+    g["hist_name"] = ">".join(c["a"].lower() for c in calls)
+    return g
+
+
+def process_hist(sp, job):
+    """One history on one live object: every call is logged as one event, every export is followed by the executor's walk of the bytes it returned."""
+    g = job["g"]
+    idx, ver = g["idx"], g["ver"]
+    out = {"idx": idx, "traces": [], "build": "ok", "len": 0, "exports": 0, "shas": []}
+    kek = bytes.fromhex(g["kek"])
+    evs, act_of = [], []
+
+    def log(k, e):
+        evs.append(e)
+        act_of.append(k)
+
+    k = -1
+    try:
+        img = sp.make_image(g)
+        for k, c in enumerate(g["hist"]):
+            a = c["a"]
+            if a == "Export":
+                log(k, {"ev": "HExport"})
+                data = img.export(padding=bytes.fromhex(g["exp_pad"]) if g["exp_pad"] else None)
+                out["len"] += len(data)
+                out["exports"] += 1
+                out["shas"].append(hashlib.sha256(data).hexdigest()[:16])
+                walk = with_markers(rom.run(data, kek))
+                for e in walk:
+                    log(k, e)
+                if walk[-1]["ev"] != "Accept":
+                    break
+            elif a == "Describe":
+                str(img), repr(img), img.raw_size, len(img)
+                log(k, {"ev": "HDescribe"})
+            elif a == "Update":
+                img.update()
+                log(k, {"ev": "HUpdate"})
+            elif a == "AddSection":
+                img.add_boot_section(sp.make_section(c["sec"]))
+                log(k, {"ev": "HAddSection", "sec": {"uid": limbs(c["sec"]["uid"]), "hmacReq": c["sec"]["hmacReq"], "cmds": [x[0] for x in c["sec"]["cmds"]]}})
+            elif a == "AppendCmd":
+                img[len(img) - 1].append(sp.make_cmd(c["cmd"][1]))
+                log(k, {"ev": "HAppendCmd", "c": c["cmd"][0]})
+            elif a == "ReplaceCmd":
+                sec = img[len(img) - 1]
+                sec[len(sec) - 1] = sp.make_cmd(c["cmd"][1])
+                log(k, {"ev": "HReplaceCmd", "c": c["cmd"][0]})
+            elif a == "SetUid":
+                img[0].uid = c["uid"]
+                log(k, {"ev": "HSetUid", "uid": limbs(c["uid"])})
+            else:
+                raise Machinery(f"history call {a} unknown to the driver")
+    except Machinery:
+        raise
+    except Exception as x:  # noqa: BLE001  a call the object refuses: no step of the history spec matches this event
+        out["build"] = f"{type(x).__name__}: {x}"[:200]
+        log(max(k, 0), {"ev": "CallFailed", "exc": out["build"]})
+    out["traces"].append(mk_trace(f"hist-{idx}", "hist", "clean", evs, given=given_record(g), idx=idx, ver=ver, act_of=act_of))
+    return out
+
+
+def hist_key(t, g, ev_index, clause):
+    """Finding key of a history: version, the calls up to and including the one that failed, the clause."""
+    k = t["act_of"][min(ev_index, len(t["act_of"]) - 1)] if t["act_of"] else 0
+    calls = ">".join(c["a"].lower() for c in g["hist"][:k + 1])
+    return f"C04/hist/{vname(t['ver'])}/{calls}/{clause}"
+
+
+# ------------------------------------------------------------------ configuration lane (Sb2Config): BootImageV21.load_from_config
+def render_stmt(st, d, name):
+    """Statement case of Sb2Config -> one entry of a section's command list as the BD parser / a YAML file hands it to load_from_config."""
+    num = hex if st["num"] == "str" else int
+    a, n, x = unl(st["a"]), unl(st["n"]), unl(st["x"])
+    mem = st["mem"]
+    mid = (mem["id"][0] << 8) | mem["id"][1]
+    opt = {"none": None, "name": mem["name"], "int": mid, "str": hex(mid)}[mem["form"]]
+    k = st["kind"]
+    c = {}
+    if k == "load":
+        if opt is not None:
+            c["load_opt"] = opt
+        if st["src"] == "file":
+            with open(os.path.join(d, name + ".bin"), "wb") as f:
+                f.write(bytes(st["d"]))
+            c["file"] = name + ".bin"
+        elif st["src"] == "blob":       # the BD parser hands a blob over as its hex digits
+            c["values"] = bytes(st["d"]).hex() if st["d"] else f"{n:08x}" + (f"{x:08x}" if x else "")
+        elif st["src"] == "words":      # YAML: 32-bit values, comma separated
+            data = bytes(st["d"])
+            c["values"] = ", ".join("0x" + data[i:i + 4].hex() for i in range(0, len(data), 4))
+        elif st["src"] == "pattern":
+            c["pattern"] = num(n)
+        else:
+            raise Machinery(f"configuration case with a data source the driver does not know: {st}")
+        c["address"] = num(a)
+    elif k == "fill":
+        c = {"pattern": num(x), "address": num(a)}
+        if st["opt"] != "nolen":
+            c["length"] = num(n)
+    elif k == "erase":
+        c = {"address": num(a)}
+        if st["opt"] != "nolen":
+            c["length"] = num(n)
+        if st["f"]:
+            c["flags"] = st["f"]
+        if opt is not None:
+            c["mem_opt"] = opt
+    elif k == "enable":
+        c = {"address": num(a)}
+        if opt is not None:
+            c["mem_opt"] = opt
+        if st["opt"] != "nolen":
+            c["size"] = n
+    elif k in ("keystore_to_nv", "keystore_from_nv"):
+        c = {"mem_opt": opt, "address": num(a)}
+    elif k == "version_check":
+        c = {"ver_type": st["f"], "fw_version": n}
+    elif k == "jump":
+        c = {"address": num(a)}
+        if st["opt"] != "noarg":
+            c["argument"] = x
+        if st["f"] == 1:
+            c["spreg"] = n
+    elif k == "call":
+        c = {"address": num(a)}
+        if st["opt"] != "noarg":
+            c["argument"] = x
+    elif k == "reset":
+        c = {}
+    else:
+        raise Machinery(f"configuration case of a kind the driver does not know: {st}")
+    return {k: c}
+
+
+def render_config(g, d):
+    """Builder input of the configuration lane -> configuration dictionary (options block with the test settings, sections, statements)."""
+    ver = lambda v: ".".join(str(x) for x in v)  # noqa: E731
+    flags = 0x8008 if g["sha"] else 0x0008
+    opts = {"flags": hex(flags) if g["cfg"]["numstr"] else flags, "buildNumber": g["build"], "productVersion": ver(g["pv"]), "componentVersion": ver(g["cv"]),
+            "dek": g["dek"], "mac": g["mac"], "nonce": g["nonce"], "timestamp": EPOCH2000 + g["ts"], "zeroPadding": g["cfg"]["zero"]}
+    secs = []
+    for si, s in enumerate(g["secs"]):
+        secs.append({"section_id": s["uid"], "options": {}, "commands": [render_stmt(c[1][1], d, f"s{si}c{j}") for j, c in enumerate(s["cmds"])]})
+    return {"options": opts, "sections": secs}
+
+
+def cfg_label(st):
+    mem = st["mem"]
+    what = mem["name"] if mem["form"] == "name" else (f"{(mem['id'][0] << 8) | mem['id'][1]:#x}" + ("(str)" if mem["form"] == "str" else "")) if mem["form"] != "none" else ""
+    return f"config/{st['kind']}/{st['src']}/mem={mem['class']}" + (f":{what}" if what else "") + (f"/{st['opt']}" if st["opt"] else "")
+
+
+def cfg_files(cases, r, first_idx):
+    """The statement cases of Sb2Config -> configurations that carry EVERY case once (about 16 statements per file, every second file with
+    two sections); header values seeded."""
+    key = lambda c: json.dumps(c, sort_keys=True)  # noqa: E731
+    cases = sorted(cases, key=key)
+    r.shuffle(cases)
+    n_files = -(-len(cases) // 16)
+    kek = open(os.path.join(K21, "SBkek_PUF.txt")).read().strip()
+    out = []
+    for i in range(n_files):
+        mine = [(c["exp"], ("cfg", c["st"])) for c in cases[i::n_files]]
+        cut = len(mine) // 2 if i % 2 else len(mine)
+        parts = [p for p in (mine[:cut], mine[cut:]) if p]
+        uids = r.sample([0, 1, 5, 0xFFFF, 0x10000, 0x7FFFFFFF, 0x80000000, 0xFFFFFFFF], len(parts))
+        secs = [{"uid": u, "hmacReq": 1, "zero": False, "cmds": p, "labs": [cfg_label(c[1][1]) for c in p]} for u, p in zip(uids, parts)]
+        nonce = bytearray(r.getrandbits(8) for _ in range(16))
+        nonce[12:16] = CTR0S[i % len(CTR0S)].to_bytes(4, "little")
+        pv = [r.choice([0, 1, 9, 10, 99, 999]) for _ in range(3)]
+        out.append({"idx": first_idx + i, "ver": "21", "sha": i % 2 == 0, "chain": "k0", "pv": pv, "cv": [r.choice([0, 1, 2, 10, 123, 999]) for _ in range(3)],
+                    "build": w32(r), "ts": r.choice([1, 633744000, 2**31 - 1, r.randrange(1, 2**31)]), "nonce": bytes(nonce).hex(),
+                    "dek": bytes(r.getrandbits(8) for _ in range(32)).hex(), "mac": bytes(r.getrandbits(8) for _ in range(32)).hex(), "kek": kek,
+                    "hdr_pad": None, "exp_pad": None, "root_idx": 0, "others": [True, True, True], "rkh_as_cert": True, "secs": secs,
+                    "cfg": {"numstr": i % 3 == 1, "zero": i % 2 == 1}})
+    return out
+
+
 def given_record(g):
     """The builder input in the vocabulary of Sb2RomTrace (type-stable, all numbers < 2^31)."""
     chain = g["chain"]
@@ -344,11 +603,31 @@ class Spsdk:
             return C.CmdLoad(address=d[1], data=bytes.fromhex(d[2]), mem_id=d[3], zero_filling=d[4])
         raise Machinery(f"no constructor {n}")
 
+    def make_section(self, s):
+        return self.Section(s["uid"], *[self.make_cmd(c[1]) for c in s["cmds"]], hmac_count=s["hmacReq"], zero_filling=s["zero"])
+
     def build(self, g):
-        """Builder input -> exported bytes, through the public classes only."""
+        """Builder input -> exported bytes, through the public classes only (or, for a configuration, through load_from_config)."""
+        if g.get("cfg"):
+            return self.build_cfg(g)
+        return self.make_image(g).export(padding=bytes.fromhex(g["exp_pad"]) if g["exp_pad"] else None)
+
+    def build_cfg(self, g):
+        """Configuration lane: the same call sequence as `nxpimage sb21 export` after the BD / YAML file has been read."""
+        d = os.path.join(scratch(), "c04cfg", str(g["idx"]))
+        os.makedirs(d, exist_ok=True)
+        conf = render_config(g, d)
+        img = self.V21.load_from_config(
+            config=conf, key_file_path=os.path.join(K21, "SBkek_PUF.txt"), signature_provider=self.providers["k0"],
+            signing_certificate_file_paths=[CHAINS["k0"][0][0]], root_key_certificate_paths=[CHAINS["k0"][0][0]] + OTHER_ROOTS,
+            rkth_out_path=os.path.join(d, "hash.bin"), search_paths=[d])
+        return img.export()
+
+    def make_image(self, g):
+        """Builder input -> live image object, through the public classes only."""
         from datetime import datetime
 
-        sections = [self.Section(s["uid"], *[self.make_cmd(c[1]) for c in s["cmds"]], hmac_count=s["hmacReq"], zero_filling=s["zero"]) for s in g["secs"]]
+        sections = [self.make_section(s) for s in g["secs"]]
         adv = self.Adv(dek=bytes.fromhex(g["dek"]), mac=bytes.fromhex(g["mac"]), nonce=bytes.fromhex(g["nonce"]),
                        timestamp=datetime.fromtimestamp(EPOCH2000 + g["ts"]), padding=bytes.fromhex(g["hdr_pad"]) if g["hdr_pad"] else None)
         ver = lambda v: ".".join(str(x) for x in v)  # noqa: E731
@@ -375,7 +654,7 @@ class Spsdk:
                     cb.set_root_key_hash(i, self.Certificate.load(paths[i]) if g["rkh_as_cert"] else slots[i])
             img.cert_block = cb
             img.signature_provider = self.providers[g["chain"]]
-        return img.export(padding=bytes.fromhex(g["exp_pad"]) if g["exp_pad"] else None)
+        return img
 
     def parse(self, ver, data, kek):
         cls = self.V21 if ver == "21" else self.V20
@@ -619,9 +898,16 @@ def key_of(t, matched, ver, g=None):
             s, i = ev.get("sec", 0), ev.get("i", 0)
             kind = secs[s]["cmds"][i]["k"] if 0 <= s < len(secs) and i < len(secs[s]["cmds"]) else "extra-command"
             labs = g["secs"][s].get("labs") if g and 0 <= s < len(g["secs"]) else None
-            lab = labs[i] if labs and i < len(labs) and kind != "extra-command" else None      # operand lane: the case that failed
+            lab = labs[i] if labs and i < len(labs) and kind != "extra-command" else None      # operand / configuration lane: the case that failed
+            if lab and lab.startswith("config/"):
+                return f"C04/{lab}/cmd/{kind}"
             return f"C04/cmd/{kind}" + (f"/{lab}" if lab else "")
         if k == "BuildFailed":
+            if g and g.get("cfg"):
+                labs = [lab for s in g["secs"] for lab in s["labs"]]
+                if len(labs) == 1:       # a configuration taken apart: the statement that is refused
+                    return f"C04/{labs[0]}/build/{ev['exc'].split(':')[0]}"
+                return f"C04/config/build/{ev['exc'].split(':')[0]}"
             return f"C04/build/{vname(ver)}/{ev['exc'].split(':')[0]}"
         return f"C04/rom/{vname(ver)}/{k}"
     mode = "" if t["mode"] == "clean" else f"{t['mode']}/"
@@ -687,12 +973,20 @@ def validate(traces, heap="6g", timeout=1500, chunk=None):
     """Batch TV (chunks of `chunk` traces, up to 4 TLC runs side by side).
     -> (rej: {id: (matched, length, evname)} traces not consumed to their end (a HARD clause failed at that event),
         soft: {id: [names]} soft clauses TLC evaluated to FALSE)"""
+    return validate_end(validate_start(traces, heap, timeout, chunk))
+
+
+def validate_start(traces, heap="6g", timeout=1500, chunk=None):
     if not traces:
-        return {}, {}
+        return [], []
     chunk = chunk or min(6000, max(300, -(-len(traces) // 3)))
     ids = [t["id"] for t in traces]
     numbered = [dict(_strip(t), id=i) for i, t in enumerate(traces)]
-    futs = [submit(_tv_chunk, numbered[k:k + chunk], heap, timeout) for k in range(0, len(numbered), chunk)]
+    return ids, [submit(_tv_chunk, numbered[k:k + chunk], heap, timeout) for k in range(0, len(numbered), chunk)]
+
+
+def validate_end(handle):
+    ids, futs = handle
     rej, soft = {}, {}
     for f in futs:
         rej_n, soft_n = f.result()
@@ -760,6 +1054,21 @@ def canary(v):
     b4 = variant(bound, "canary-bound-cv", lambda t: t["given"].__setitem__("cv", [4, 5, 6]))
     b5 = variant(bound, "canary-bound-hmacreq", lambda t: t["given"]["secs"][0].__setitem__("hmacReq", 2))
     b6 = variant(bound, "canary-bound-keys", lambda t: t["given"].__setitem__("keys", "00" * 16))
+    b7 = variant(bound, "canary-bound-mem", lambda t: t["given"]["secs"][0]["cmds"][3].__setitem__("m", [1, 32]))     # the load was asked to go to the SD card
+    # history canary: the golden as two exports of one object with queries in between; then the same with a header field that accumulated,
+    # with a mutator the second file does not reflect, with a changed section id the second file does not carry
+    marked = with_markers(evs)
+    hist_ev = [{"ev": "HDescribe"}, {"ev": "HExport"}] + marked + [{"ev": "HUpdate"}, {"ev": "HExport"}] + marked
+    hg = mk_trace("canary-hist-good", "hist", "clean", hist_ev, given=given, ver="21")
+    second = 3 + len(marked)              # index of the second HExport
+
+    def acc(t):
+        t["ev"][second + 1]["maxMac"] *= 2
+
+    h2 = variant(hg, "canary-hist-accumulated", acc)
+    h3 = variant(hg, "canary-hist-stale-content", lambda t: t["ev"].insert(second, {"ev": "HAppendCmd", "c": acmd("reset")}))
+    h4 = variant(hg, "canary-hist-stale-id", lambda t: t["ev"].insert(second, {"ev": "HSetUid", "uid": [0, 9]}))
+    h5 = variant(hg, "canary-hist-export-inside-file", lambda t: t["ev"].insert(second + 3, {"ev": "HExport"}))
     # second observer canary
     ref = ref_of(evs)
     pev = [{"ev": "ParseOutcome", "outcome": "returned", "exc": ""}, {"ev": "PField", "name": "product_version", "got": [1, 0, 0]},
@@ -769,18 +1078,22 @@ def canary(v):
     pr = mk_trace("canary-parse-raised-clean", "parse", "clean", [{"ev": "ParseOutcome", "outcome": "raised", "exc": "X"}], ref=ref, ver="21")
     pt = mk_trace("canary-parse-raised-tamper", "parse", "tamper", [{"ev": "ParseOutcome", "outcome": "raised", "exc": "X"}], ref=ref, ver="21")
     pd = variant(pb, "canary-parse-tamper-different", lambda t: t.__setitem__("mode", "tamper"))
-    allt = tr + bad + [bound, b2, b3, b4, b5, b6, pg, pb, pr, pt, pd]
+    allt = tr + bad + [bound, b2, b3, b4, b5, b6, b7, pg, pb, pr, pt, pd, hg, h2, h3, h4, h5]
+    if hg["ev"][second]["ev"] != "HExport" or hg["ev"][second + 1]["ev"] != "ParseHeader":
+        raise Machinery("canary: history trace not laid out as expected")
     rej, soft = validate(allt)
     if any(i in soft for i in good_ids):
         raise Machinery(f"canary failed: a golden file of the reference tool fails a soft clause: { {i: soft[i] for i in good_ids if i in soft} }")
-    if soft.get("canary-bound-cv") != ["component_version"] or soft.get("canary-bound-hmacreq") != ["hmac_count"] or "canary-image-blocks" not in soft:
+    if (soft.get("canary-bound-cv") != ["component_version"] or soft.get("canary-bound-hmacreq") != ["hmac_count"] or "canary-image-blocks" not in soft
+            or soft.get("canary-hist-stale-id") != ["section_id@2"]):
         raise Machinery(f"canary failed: soft clauses not reported as expected: {soft}")
     rej = dict(rej)
-    for i in ("canary-bound-cv", "canary-bound-hmacreq", "canary-image-blocks"):
+    for i in ("canary-bound-cv", "canary-bound-hmacreq", "canary-image-blocks", "canary-hist-stale-id"):
         rej.setdefault(i, (0, 0, "soft:" + "+".join(soft[i])))
-    must_accept = set(good_ids) | {"canary-bound-good", "canary-parse-good", "canary-parse-raised-tamper"}
+    must_accept = set(good_ids) | {"canary-bound-good", "canary-parse-good", "canary-parse-raised-tamper", "canary-hist-good"}
     must_reject = {t["id"] for t in bad} | {"canary-bound-addr", "canary-bound-data", "canary-bound-cv", "canary-bound-hmacreq", "canary-bound-keys", "canary-parse-cmd",
-                                            "canary-parse-raised-clean", "canary-parse-tamper-different"}
+                                            "canary-parse-raised-clean", "canary-parse-tamper-different", "canary-bound-mem", "canary-hist-accumulated",
+                                            "canary-hist-stale-content", "canary-hist-stale-id", "canary-hist-export-inside-file"}
     if (must_accept & set(rej)) or (must_reject - set(rej)):
         raise Machinery(f"canary failed: wrongly rejected {[(i, rej[i]) for i in sorted(must_accept & set(rej))]}, "
                         f"wrongly accepted {sorted(must_reject - set(rej))}")
@@ -839,6 +1152,34 @@ def operand_cases(tier):
     return cases, res
 
 
+HIST_ACTIONS = ("DoExport", "DoDescribe", "DoUpdate", "DoAddSection", "DoAppendCmd", "DoReplaceCmd", "DoSetUid")
+
+
+def hist_gen(tier):
+    """MC + GEN of the history space (Sb2Hist): lemmas over every history, every history that ends in an export emitted; and the refutation run:
+    the variant whose cache accumulates must violate ExportDescribes (the space reaches that class). -> (histories, TlcResult)"""
+    res = tlc.mc("C04", "Sb2Hist", "Sb2HistGen.cfg" if tier == "quick" else "Sb2HistGen_t.cfg", workers=1, heap="4g", timeout=900, deadlock=False,
+                 require_actions=HIST_ACTIONS)
+    hists = res.json_prints()
+    if len(hists) != res.coverage.get("DoExport", (0, 0))[0] or len(hists) < 1000:
+        raise Machinery(f"Sb2Hist: {len(hists)} histories emitted, Export fired {res.coverage.get('DoExport')}")
+    res.out = res.out[-3000:]
+    ref = tlc.run("C04", "Sb2Hist", "Sb2HistRefute.cfg", workers=1, deadlock=False, heap="2g", timeout=300)
+    if ref.violated != "ExportDescribes":
+        raise Machinery(f"Sb2Hist refutation run: the accumulating variant was not refuted ({ref.violated})")
+    return hists, res
+
+
+def config_cases():
+    """MC + GEN of the configuration statement space (Sb2Config): lemmas over every case, every case emitted with its expectation."""
+    res = tlc.mc("C04", "Sb2Config", "Sb2Config.cfg", workers=1, coverage=False, heap="2g", timeout=300, deadlock=False)
+    cases = res.json_prints()
+    if len(cases) != res.distinct or len(cases) < 300:
+        raise Machinery(f"Sb2Config: {len(cases)} cases emitted, {res.distinct} initial states")
+    res.out = res.out[-3000:]
+    return cases, res
+
+
 def run(tier):
     sp = Spsdk()
     os.environ["TZ"] = "UTC"
@@ -863,6 +1204,8 @@ def run(tier):
 def _run(tier, sp, v, r, quick, mc_future):
     gen_future = submit(gen_all_child, tier)
     ops_future = submit(operand_cases, tier)
+    hist_future = submit(hist_gen, tier)
+    cfg_future = submit(config_cases)
     canary(v)
     say(f"[C04] canary: {v.extra['canary'][:200]}... ({v.timer.s()}s)")
     shapes, gen_counts = gen_future.result()
@@ -914,22 +1257,70 @@ def _run(tier, sp, v, r, quick, mc_future):
         raise Machinery("operand lane: not every case emitted by TLC was placed into a file")
     say(f"[C04] operand lane: {len(op_cases)} operand cases (boundaries of every width class, per command kind and operand) enumerated by TLC, "
         f"placed into {len(jobs) - n_lane0} files ({v.timer.s()}s)")
-    results = pmap(lambda job: process(sp, job), jobs, chunksize=2)
+    # configuration lane: every statement case of Sb2Config is built through load_from_config in every run
+    cfg_cs, cfg_mc = cfg_future.result()
+    n_cfg0 = len(jobs)
+    for g in cfg_files(cfg_cs, rng(PROP, "cfg"), len(jobs)):
+        jobs.append({"g": g, "tamper": 0})
+    cfg_placed = [json.dumps(c[1][1], sort_keys=True) for j in jobs[n_cfg0:] for s in j["g"]["secs"] for c in s["cmds"]]
+    if sorted(cfg_placed) != sorted(json.dumps(c["st"], sort_keys=True) for c in cfg_cs):
+        raise Machinery("configuration lane: not every case emitted by TLC was placed into a configuration")
+    say(f"[C04] configuration lane: {len(cfg_cs)} statement cases (kind x memory-option class x data source) enumerated by TLC, "
+        f"placed into {len(jobs) - n_cfg0} configurations ({v.timer.s()}s)")
+    # history lane: every selected history of Sb2Hist is replayed on one live object
+    hists, hist_mc = hist_future.result()
+    hsel = hist_select(hists, quick)
+    n_hist0 = len(jobs)
+    for h in hsel:
+        g = concretise_hist(h, len(jobs), rng(PROP, "hist", len(jobs) - n_hist0), plain_tour, residue_tour, sp.ks_ids)
+        jobs.append({"g": g, "hist": True})
+    say(f"[C04] history lane: {len(hists)} histories (calls on one live object, ending in an export) enumerated by TLC, {len(hsel)} replayed "
+        f"(all shorter call sequences for every version, the longest in rotation over version / initial content) ({v.timer.s()}s)")
+    results = pmap(lambda job: process_hist(sp, job) if job.get("hist") else process(sp, job), jobs, chunksize=2)
     traces = [t for res in results for t in res["traces"]]
     by_idx = {j["g"]["idx"]: j["g"] for j in jobs}
     res_by_idx = {res["idx"]: res for res in results}
     v.count(len(traces))
     n_built = sum(1 for res in results if res["build"] == "ok")
-    say(f"[C04] {len(jobs)} files built through BootImageV20 / BootImageV21 ({n_built} exported, {sum(res['len'] for res in results)} bytes), "
-        f"{len(traces)} observations (executor walks, parse() runs, tampered / wrong-KEK variants) ({v.timer.s()}s)")
+    n_exports = sum(res.get("exports", 0) for res in results)
+    say(f"[C04] {len(jobs)} objects built through BootImageV20 / BootImageV21 / load_from_config ({n_built} without refusal, {n_exports} exports inside histories, "
+        f"{sum(res['len'] for res in results)} bytes), {len(traces)} observations (executor walks, parse() runs, tampered / wrong-KEK variants, histories) ({v.timer.s()}s)")
 
-    # ---- TV: one batch for the clean traces, one for the tampered / wrong-KEK ones
-    clean = [t for t in traces if t["mode"] == "clean"]
-    rej_clean, soft_clean = validate(clean)
+    # ---- TV: one batch for the clean traces (the histories next to it), one for the tampered / wrong-KEK ones
+    hist_tr = [t for t in traces if t["kind"] == "hist"]
+    clean = [t for t in traces if t["mode"] == "clean" and t["kind"] != "hist"]
+    h_clean = validate_start(clean)
+    h_hist = validate_start(hist_tr)
+    rej_clean, soft_clean = validate_end(h_clean)
     say(f"[C04] {len(clean)} clean traces validated ({v.timer.s()}s)")
+    rej_hist, soft_hist = validate_end(h_hist)
+    say(f"[C04] {len(hist_tr)} histories validated ({v.timer.s()}s)")
+    # configuration lane: a rejected configuration is taken apart - every statement is built on its own, so that every failing case is
+    # reported under its own key (and a known finding cannot hide another statement of the same file)
+    cfg_rej = [j["g"] for j in jobs[n_cfg0:n_hist0] if f"rom-{j['g']['idx']}" in rej_clean]
+    superseded = set()
+    if cfg_rej:
+        iso_jobs, nxt = [], len(jobs)
+        for g in cfg_rej:
+            for s_ in g["secs"]:
+                for c, lab in zip(s_["cmds"], s_["labs"]):
+                    iso_jobs.append({"g": dict(g, idx=nxt, of=g["idx"], secs=[dict(s_, cmds=[c], labs=[lab])]), "tamper": 0})
+                    nxt += 1
+        iso_res = pmap(lambda job: process(sp, job), iso_jobs, chunksize=2)
+        iso_tr = [t for res in iso_res for t in res["traces"]]
+        rej_iso, soft_iso = validate(iso_tr)
+        by_idx.update({j["g"]["idx"]: j["g"] for j in iso_jobs})
+        res_by_idx.update({res["idx"]: res for res in iso_res})
+        superseded = {f"rom-{j['g']['of']}" for j in iso_jobs if f"rom-{j['g']['idx']}" in rej_iso}
+        clean += iso_tr
+        rej_clean.update(rej_iso)
+        soft_clean.update(soft_iso)
+        v.count(len(iso_tr))
+        say(f"[C04] configuration lane: {len(cfg_rej)} rejected configurations taken apart into {len(iso_jobs)} single-statement configurations, "
+            f"{sum(1 for j in iso_jobs if 'rom-%d' % j['g']['idx'] in rej_iso)} of them rejected ({v.timer.s()}s)")
     usable = [t for t in traces if t["mode"] != "clean" and t["of"] not in rej_clean]   # a file whose clean trace is a hard finding is not tampered with
     rej_dirty, soft_dirty = validate(usable)
-    v.traces(len(clean) + len(usable))
+    v.traces(len(clean) + len(usable) + len(hist_tr))
     say(f"[C04] {len(usable)} tampered / wrong-KEK traces validated ({v.timer.s()}s)")
 
     def short(ev):
@@ -943,7 +1334,7 @@ def _run(tier, sp, v, r, quick, mc_future):
             if (t["kind"] == "rom" and last["ev"] != "Accept") or (t["kind"] == "parse" and last["ev"] != "PEnd"):
                 raise Machinery(f"trace {t['id']} was consumed by TLC but does not end in Accept / PEnd: {short(last)}")
             v.nontrivial((t["kind"], res_by_idx[idx].get("sha", idx)))
-        else:
+        elif t["id"] not in superseded:      # (a rejected configuration is reported statement by statement)
             matched, length, evname = rej_clean[t["id"]]
             ev = t["ev"][min(matched, len(t["ev"]) - 1)]
             v.violation(key_of(t, matched, ver, by_idx[idx]), f"{vname(ver)} file #{idx}: {who} trace rejected at event #{matched + 1} ({evname}): {json.dumps(short(ev))[:500]}",
@@ -959,6 +1350,36 @@ def _run(tier, sp, v, r, quick, mc_future):
                 detail = {"clause": name, "parsed": [short(e) for e in t["ev"] if e["ev"] == "PField"], "file": {k: x for k, x in t["ref"].items() if k != "secs"}}
             v.violation(soft_key(t, name), f"{vname(ver)} file #{idx}: {who} trace: clause {name} is FALSE: {json.dumps(detail)[:600]}",
                         {"g": by_idx[idx], "trace": _strip(t), "soft": name})
+    # histories: every export of every history must have been accepted, bound to the content the object held at that moment
+    hist_stats = {"histories": len(hist_tr), "exports": n_exports, "accepted_to_the_end": 0, "by_version": {}}
+    for t in hist_tr:
+        idx, ver, g = t["idx"], t["ver"], by_idx[t["idx"]]
+        st = hist_stats["by_version"].setdefault(vname(ver) + ("+sha" if g["sha"] else ""), [0, 0])
+        st[0] += 1
+        if t["id"] not in rej_hist:
+            if not t["ev"] or t["ev"][-1]["ev"] not in ("Accept", "HDescribe", "HUpdate", "HAddSection", "HAppendCmd", "HReplaceCmd", "HSetUid"):
+                raise Machinery(f"history {t['id']} was consumed by TLC but does not end in an accepted export / a call: {short(t['ev'][-1]) if t['ev'] else None}")
+            st[1] += 1
+            hist_stats["accepted_to_the_end"] += 1
+            v.nontrivial(("hist", tuple(res_by_idx[idx]["shas"]), g["hist_name"]))
+        else:
+            matched, length, evname = rej_hist[t["id"]]
+            ev = t["ev"][min(matched, len(t["ev"]) - 1)]
+            clause = f"field:{ev['name']}" if evname == "Field" else evname
+            v.violation(hist_key(t, g, matched, clause),
+                        f"{vname(ver)} history #{idx} ({g['hist_name']}): rejected at event #{matched + 1} ({evname}), i.e. during call "
+                        f"#{t['act_of'][min(matched, len(t['act_of']) - 1)] + 1}: {json.dumps(short(ev))[:500]}",
+                        {"g": g, "trace": _strip(t), "rejected_at": matched, "hist": True})
+        for name in soft_hist.get(t["id"], []):
+            clause, _, nexp = name.partition("@")
+            exports = [i for i, e in enumerate(t["ev"]) if e["ev"] == "HExport"]
+            at = exports[int(nexp) - 1] if nexp.isdigit() and 0 < int(nexp) <= len(exports) else 0
+            hdr = next((e for e in t["ev"][at:] if e["ev"] == "ParseHeader"), {})
+            v.violation(hist_key(t, g, at, f"header/{clause}"),
+                        f"{vname(ver)} history #{idx} ({g['hist_name']}): export #{nexp}: clause {clause} is FALSE: header in file "
+                        f"{json.dumps({k: x for k, x in hdr.items() if k in ('flags', 'pv', 'cv', 'build', 'ts', 'fileBlocks', 'imageBlocks', 'firstTag', 'firstId', 'maxMac')})[:400]}",
+                        {"g": g, "trace": _strip(t), "soft": name, "hist": True})
+    v.extra["history_lane"] = hist_stats
     # tampered / wrong-KEK: the ROM automaton must reject (else my model has a hole: machinery), parse() must raise or return the same content
     tamper_stats, holes = {}, []
     for t in usable:
@@ -992,7 +1413,7 @@ def _run(tier, sp, v, r, quick, mc_future):
         "anchors/C04: 14 golden files of the reference tool (elftosb) that the automaton must accept at every start",
         "nothing from spsdk.crypto / spsdk.sbfile on the deciding side; TLC decides every trace",
     ]
-    v.extra["checker_cmd"] = "tlc2.TLC -config Sb2RomMC*.cfg Sb2RomMC.tla (MC), -config Sb2RomGen*.cfg (GEN), -config Sb2RomTrace.cfg Sb2RomTrace.tla (TV)"
+    v.extra["checker_cmd"] = "tlc2.TLC -config Sb2RomMC*.cfg Sb2RomMC.tla (MC), -config Sb2RomGen*.cfg (GEN), -config Sb2RomTrace.cfg Sb2RomTrace.tla (TV); -config Sb2OperandsMC.cfg Sb2OperandsMC.tla, -config Sb2Config.cfg Sb2Config.tla, -config Sb2HistGen.cfg / Sb2HistRefute.cfg Sb2Hist.tla (MC + GEN of the lanes)"
     v.extra["tamper"] = tamper_stats
     v.extra["tamper_rejected"] = sum(s["rejected"] for k, s in tamper_stats.items() if k.startswith("rom/"))
     v.extra["files"] = {"built": n_built, "bytes": sum(res["len"] for res in results)}
@@ -1014,7 +1435,7 @@ def _run(tier, sp, v, r, quick, mc_future):
                       "given": {k: x for k, x in t["given"].items() if k != "secs"} if t["given"] else None,
                       "events": [{k: x for k, x in e.items() if k != "payload"} for e in t["ev"][:40]]})
     lane_stats = {"cases": len(op_cases), "files": len(jobs) - n_lane0, "decoded_as_given": 0, "by_kind": {}}
-    for j in jobs[n_lane0:]:
+    for j in jobs[n_lane0:n_cfg0]:
         ok = f"rom-{j['g']['idx']}" not in rej_clean and res_by_idx[j["g"]["idx"]]["build"] == "ok"
         for c in j["g"]["secs"][0]["cmds"]:
             st = lane_stats["by_kind"].setdefault(c[0]["k"], [0, 0])
@@ -1023,6 +1444,19 @@ def _run(tier, sp, v, r, quick, mc_future):
             lane_stats["decoded_as_given"] += 1 if ok else 0
     v.extra["operand_lane"] = lane_stats
     v.add_mc(op_mc)
+    cfg_stats = {"cases": len(cfg_cs), "configurations": n_hist0 - n_cfg0, "decoded_as_given": 0, "by_class": {}}
+    for j in jobs[n_cfg0:n_hist0]:
+        ok = f"rom-{j['g']['idx']}" not in rej_clean and res_by_idx[j["g"]["idx"]]["build"] == "ok"
+        for s_ in j["g"]["secs"]:
+            for c in s_["cmds"]:
+                st = c[1][1]
+                cs = cfg_stats["by_class"].setdefault(f"{st['kind']}/{st['src']}/{st['mem']['class']}", [0, 0])
+                cs[0] += 1
+                cs[1] += 1 if ok else 0
+                cfg_stats["decoded_as_given"] += 1 if ok else 0
+    v.extra["configuration_lane"] = cfg_stats
+    v.add_mc(cfg_mc)
+    v.add_mc(hist_mc)
     mcs = mc_future.result()
     for res, n in zip(mcs, gen_counts):
         v.add_mc(res)
@@ -1038,7 +1472,14 @@ def _run(tier, sp, v, r, quick, mc_future):
                      "executor and parsed by SPSDK; OPERAND LANE: TLC enumerates the operand case space (Sb2OperandsMC: command kind x numeric operand x "
                      "lowest / lowest+1 / highest-1 / highest value of every width class of 1..4 bytes, sign boundary, one interior value per class; one "
                      "operand at a time and all together; memory ids at the ends of group and device id; header words build number and section id; "
-                     "thorough: pairs of operands) and EVERY case is built, walked and parsed in every run; evaluations = traces handed to TLC; non-trivial = clean trace accepted to the end, distinct by "
+                     "thorough: pairs of operands) and EVERY case is built, walked and parsed in every run; CONFIGURATION LANE: TLC enumerates the statement "
+                     "case space of the configuration path (Sb2Config: statement kind x memory-option class [absent, internal, name, number of a named memory, "
+                     "number without a name incl. group bits; integer and string] x data source [file, blob, comma-separated words, pattern]) with the abstract "
+                     "command each statement means, and EVERY case is built through BootImageV21.load_from_config in every run, walked and parsed; HISTORY LANE: "
+                     "TLC enumerates the histories of one live builder object (Sb2Hist: str / update / add section / append command / replace command / set "
+                     "section id / export, up to 4 calls quick, 5 thorough, per version and initial content), each selected history is replayed on a real "
+                     "object and EVERY export in it is walked by the executor, bound to the content the object held at that moment (state of the trace "
+                     "spec); evaluations = traces handed to TLC; non-trivial = clean trace accepted to the end, distinct by "
                      "SHA-256 of the exported file and observer")
     v.assumptions += [
         "nonce counter word + number of blocks < 2^32 (counter wrap-around in the ROM is not documented)",
@@ -1053,6 +1494,14 @@ def _run(tier, sp, v, r, quick, mc_future):
         "any exception of parse() counts as 'raises an error'; the second observer is compared with what the executor decoded from the same bytes",
         "time zone of the run is UTC; header timestamp = whole seconds since 2000-01-01 < 2^31",
         "a tampered file accepted by the automaton is a hole of this model (machinery failure), not a statement about SPSDK",
+        "configuration lane: the configuration dictionary is handed to load_from_config as the BD parser / a YAML file produces it (the BD grammar itself is C19's); "
+        "memory names and their ids are those of the BD language / boot ROM (sdcard = @288 ...), the name `internal` and a memory option on fill are not asserted; "
+        "blob data: whole 32-bit words whose four bytes are equal (the byte order of a blob word and blobs that are not whole words are a known finding of C19, "
+        "blobs of more than one word only in the comma-separated YAML form); fuse / IFR (id 4) only as a target of word programming (blob of 1..2 words, pattern), "
+        "not of file loads; a pattern with another memory option, encrypt / keywrap statements (OTFAD key blobs: C13) and programFuses are not asserted",
+        "history lane: queries are str() / repr() / raw_size / len() and update(); mutators are add_boot_section, BootSectionV2.append, section[i] = command, "
+        "section.uid = id on objects built through the classes; header values (versions, keys, nonce, timestamp, flags) are not changed inside a history; "
+        "an object obtained from parse() is not re-exported",
     ]
     return v.finish()
 
@@ -1070,6 +1519,11 @@ def replay(path):
         say("replay of a tampered / wrong-KEK observation: the recorded observation is re-validated against the spec")
         cand = [mk_trace(old["id"], old["kind"], old["mode"], old["ev"], given=old["given"], ref=old["ref"], ver=g["ver"], idx=g["idx"])]
         ignore = w.get("soft_clean", [])
+    elif w.get("hist"):
+        for c in g["hist"]:
+            if "sec" in c:
+                c["sec"]["cmds"] = [(x[0], tuple(x[1])) for x in c["sec"]["cmds"]]
+        cand = process_hist(sp, {"g": g})["traces"]
     else:
         res = process(sp, {"g": g, "tamper": 0, "max_payload": (1 << 17) if g.get("lane") else 4096})
         cand = [t for t in res["traces"] if t["kind"] == old["kind"]]
